@@ -260,6 +260,11 @@ def random_cases(g, count, maxlen):
 
 def run(ctx):
     ctx.proof_stage()
+    if not ctx.quick():
+        badck = vlib.leanchecker(["BFL.Model.Skip", "BFL.Proofs.Skip", "BFL.Props.C13"])
+        ctx.coverage["leanchecker"] = "ok" if not badck else "FAILED: %s" % badck[:2]
+        if badck:
+            ctx.violation("leanchecker", "leanchecker rejected the compiled modules: %s" % badck[:1], {"modules": [b[0] for b in badck]}, no_input=True)
     binary = vlib.build_harness("h_skip")
     cases = []
     if ctx.replay:
@@ -312,6 +317,7 @@ def run(ctx):
         "model_branch_hits": dict(sorted(branches.items())),
         "distinct_model_states_visited": len(stats.get("states", ())),
         "property_failures_on_impl": len(prop_bad),
+        "property_failures_by_key": {k: sum(1 for x in prop_bad if x[0] == k) for k in sorted(set(x[0] for x in prop_bad))},
         "model_vs_impl_differences_outside_property": len(notes),
         "sanitizer_crashes": len(logs),
         "step_observations": stats.get("observations", 0),
